@@ -33,12 +33,15 @@ FUZZ_CONFIGS = {
                                                 autoescape=True),
 }
 
-NAMES = ["a", "b", "x", "y", "loop", "self", "true", "none", "class", "é", "_x", "l_0_x", "caller", "varargs", "if", "in", "import", "context"]
+NAMES = ["a", "b", "x", "y", "loop", "self", "true", "none", "class", "é", "_x", "l_0_x", "caller", "varargs", "if", "in", "import", "context",
+         "fi", "\ufb01", "__debug__", "_loop_vars"]
 FILTERS = ["upper", "default", "join", "nosuch", "safe", "attr", "map", "e"]
 TESTS = ["defined", "none", "divisibleby", "nosuch", "in", "sameas"]
 BINOPS = ["+", "-", "*", "/", "//", "%", "**", "~", "==", "!=", "<", ">=", "and", "or", "in", "not in", "is", "|", "=", ","]
 INTS = ["0", "1", "42", "0x1f", "0b1_0", "1_000", "007", "9" * 30]
 FLOATS = ["1.5", "1e3", "1_0.5e-2", "1e999", "0.0", "3."]
+# constant-foldable expressions whose value has no evaluable repr (bound method, iterator, generator) and containers of them
+UNSAFE = ["'a'|attr('upper')", "[1, 2]|reverse", "[1, 2, 3]|batch(2)", "'abc'|attr('title')", "[1]|slice(1)", "'a'|map('upper')"]
 STRS = ["'s'", '"d"', "'a\\'b'", "'\\x41'", "'\\N{DASH}'", "'é\\n'", "'%s'", "'{{'", "\"%}\""]
 
 
@@ -66,6 +69,9 @@ class Gen:
     def expr(self, d=0):
         r = self.r
         k = r.random()
+        if k < 0.03:
+            u = r.choice(UNSAFE)
+            return r.choice(["{'k': %s}", "{'k': [%s]}", "{1: (2, %s)}", "[%s]", "(%s, 1)", "{%s: 1}", "{'o': {'i': %s}}", "%s"]) % u
         if d > 3 or k < 0.25:
             return r.choice([self.name(), r.choice(INTS), r.choice(FLOATS), r.choice(STRS), self.name(), self.name()])
         if k < 0.40:
@@ -252,6 +258,19 @@ def duplicate_keyword(env, src):
     return False
 
 
+def duplicate_parameter(env, src):
+    import jinja2.nodes as N
+    try:
+        tree = env.parse(src)
+    except Exception:
+        return False
+    for n in tree.find_all((N.Macro, N.CallBlock)):
+        names = [a.name for a in n.args]
+        if len(set(names)) < len(names):
+            return True
+    return False
+
+
 def classify(ex, env=None, src=None):
     """finding key of a deviation"""
     msg = str(ex)
@@ -259,14 +278,20 @@ def classify(ex, env=None, src=None):
         return "slice-in-tuple-subscript"
     nm = type(ex).__name__
     if isinstance(ex, SyntaxError):
+        if "cannot assign to __debug__" in msg:
+            return "kwarg-name:__debug__"
         if "duplicate argument" in msg:
+            if env is not None and not duplicate_parameter(env, src):
+                return "nfkc-collision"  # distinct raw names with the same NFKC form
             return "F5:duplicate-parameter"
         if "keyword argument repeated" in msg:
             m = re.search(r"repeated: (\w+)", msg)
             if m and m.group(1) in ("caller", "_loop_vars", "_block_vars") and env is not None and not duplicate_keyword(env, src):
                 return "generator-keyword-collision"
+            if env is not None and not duplicate_keyword(env, src):
+                return "nfkc-collision"
             return "F6:duplicate-keyword"
-        if "too many statically nested blocks" in msg or "too many levels of indentation" in msg:
+        if "too many statically nested blocks" in msg or "too many levels of indentation" in msg or "too many nested parentheses" in msg:
             return "F8:static-nesting"
         if "'break' outside loop" in msg or "'continue' not properly in loop" in msg:
             return "F25:loopcontrol-outside-loop"
